@@ -139,7 +139,14 @@ def run_impl(case):
     before = trees.extract(root)
     decls = decls_from_items(case["decls"])
     try:
-        out = root.serialize(namespaces=decls)
+        if case.get("fmt"):
+            from delb import FormatOptions
+
+            f = case["fmt"]
+            out = root.serialize(namespaces=decls, format_options=FormatOptions(
+                align_attributes=f["align"], indentation=f["indent"], width=f["width"]))
+        else:
+            out = root.serialize(namespaces=decls)
         res = {"out": out}
     except Exception as e:  # noqa: BLE001
         res = {"err": type(e).__name__, "msg": str(e)}
